@@ -255,6 +255,10 @@ var c10Fields = core.Mon(c10, "fields", func(w *core.W, c *FieldCase) {
 	if c.ErrClass && strings.HasPrefix(full, "ERROR") && strings.HasPrefix(restr, "ERROR") {
 		return
 	}
+	if full != restr && addressSensitive(sc, *c.Data) {
+		w.Skip("address-dependent-output")
+		return
+	}
 	if full != restr {
 		w.Violation("fields", "C10/not-sufficient", c, clipS(full, 300), clipS(restr, 300),
 			fmt.Sprintf("%s evaluates differently on the data restricted to the reported names %s plus callees %s", q, setOf(keep), setOf(m.Callees)))
